@@ -306,6 +306,34 @@ Proof.
     + rewrite <- app_assoc. exact Hhd.
 Qed.
 
+(** a walk that succeeds keeps succeeding, through the same tables, as long as the present entries of
+    upper-level tables are not modified *)
+Lemma follow_mono s s' T own t p is l :
+  WF s T own -> own t = Some p -> lo s' = lo s -> cnt s' = cnt s ->
+  (forall f q i, own f = Some q -> (length q < 3)%nat -> hw_P (ent s f i) = true -> ent s' f i = ent s f i) ->
+  Forall (fun x => x < 512) is -> (length p + length is <= 3)%nat -> hd 0 (p ++ is) <> 511 ->
+  follow s t is = Some l -> follow s' t is = Some l.
+Proof.
+  intros W. revert t p. induction is as [|i r IH]; intros t p Ho Hlo Hcnt Hfr Hlt Hlen Hhd Hf; [exact Hf|].
+  cbn [follow] in *. assert (Hbk: forall f, backed s' f = backed s f) by (intros; unfold backed; rewrite Hlo, Hcnt; reflexivity).
+  rewrite Hbk.
+  destruct (backed s t) eqn:Hb; [|discriminate]. cbn [andb] in *.
+  destruct (usable (ent s t i)) eqn:Hu; [|discriminate].
+  pose proof Hu as Hu'. unfold usable in Hu'. apply andb_prop in Hu'. destruct Hu' as [HP _].
+  cbn [length] in Hlen.
+  rewrite (Hfr t p i Ho ltac:(lia) HP), Hu.
+  inversion Hlt as [|? ? Hi Hr]; subst.
+  assert (Hne: p ++ [i] <> [511]).
+  { intros E. destruct p as [|x p']; cbn in *.
+    - inversion E; subst. apply Hhd. reflexivity.
+    - inversion E as [[E1 E2]]. destruct p'; discriminate. }
+  destruct (wf_child s T own W t p i Ho ltac:(lia) Hi Hne) as [_ Hc]. specialize (Hc HP).
+  apply (IH _ (p ++ [i]) Hc Hlo Hcnt Hfr Hr).
+  - rewrite app_length. cbn [length]. lia.
+  - rewrite <- app_assoc. exact Hhd.
+  - exact Hf.
+Qed.
+
 (** present leaf entries only: what a page translates to *)
 Definition lookP (s : st) (t : N) (is : list N) : option N :=
   match look s t is with Some e => if hw_P e then Some e else None | None => None end.
